@@ -43,6 +43,9 @@ def cutOf (msg : Bytes) : Nat :=
     | none => msg.length
   (closedAtOf msg).getD nextMsg0
 
+/-- `SOH 10=` has been seen but its terminating SOH has not arrived: `decode` waits -/
+def waitCk (msg : Bytes) : Bool := (findSub cksumPat msg).isSome && (closedAtOf msg).isNone
+
 /-- consumed length reported when the cut has fewer than three fields -/
 def fewOf (validIdx : Nat) (msg : Bytes) : Nat :=
   if (closedAtOf msg).isSome then validIdx + cutOf msg else validIdx
@@ -128,7 +131,8 @@ theorem decode_eq0 (bs : Bytes) (tbl : Tbl) (raw : Bytes) :
     decode bs tbl raw =
       match findSub marker raw with
       | none => .none (raw.length - partialMarkerKeep raw)
-      | some v => decodeFields bs tbl raw.length v (fewOf v (raw.drop v)) ((raw.drop v).take (cutOf (raw.drop v)))
+      | some v => if waitCk (raw.drop v) then .none v else
+          decodeFields bs tbl raw.length v (fewOf v (raw.drop v)) ((raw.drop v).take (cutOf (raw.drop v)))
           (fieldsOf ((raw.drop v).take (cutOf (raw.drop v)))) := by
   cases h : findSub marker raw with
   | none => simp only [decode, h]
@@ -154,7 +158,8 @@ theorem decode_eq (bs : Bytes) (tbl : Tbl) (raw : Bytes) :
     decode bs tbl raw =
       match findSub marker raw with
       | none => .none (raw.length - partialMarkerKeep raw)
-      | some v => decodeTail bs tbl raw.length v (fewOf v (raw.drop v)) ((raw.drop v).take (cutOf (raw.drop v))) := by
+      | some v => if waitCk (raw.drop v) then .none v else
+          decodeTail bs tbl raw.length v (fewOf v (raw.drop v)) ((raw.drop v).take (cutOf (raw.drop v))) := by
   rw [decode_eq0]
   cases findSub marker raw with
   | none => rfl
